@@ -75,6 +75,15 @@ def getDuration(fn: str) -> float:
     return QueryWav(fn).duration
 
 
+def _validateTimeRange(startTime: float, endTime: float) -> None:
+    """Raises an ArgumentError if a time range ends before it starts"""
+    if startTime > endTime:
+        raise errors.ArgumentError(
+            f"The start time ({startTime}) of a time range "
+            f"cannot occur after its end time ({endTime})"
+        )
+
+
 def readFramesAtTime(
     audiofile: wave.Wave_read, startTime: float, endTime: float
 ) -> bytes:
@@ -294,6 +303,8 @@ class QueryWav(AbstractWav):
         if endTime is None:
             endTime = self.duration
 
+        _validateTimeRange(startTime, endTime)
+
         return readFramesAtTime(self.audiofile, startTime, endTime)
 
     def getSamples(self, startTime: float, endTime: float) -> Tuple[int, ...]:
@@ -344,6 +355,8 @@ class Wav(AbstractWav):
         self.frames += frames
 
     def deleteSegment(self, startTime: float, endTime: float) -> None:
+        _validateTimeRange(startTime, endTime)
+
         i = self._getIndexAtTime(startTime)
         j = self._getIndexAtTime(endTime)
         self.frames = self.frames[:i] + self.frames[j:]
@@ -353,6 +366,8 @@ class Wav(AbstractWav):
         return len(self.frames) / self.frameRate / self.sampleWidth
 
     def getFrames(self, startTime: float, endTime: float) -> bytes:
+        _validateTimeRange(startTime, endTime)
+
         i = self._getIndexAtTime(startTime)
         j = self._getIndexAtTime(endTime)
         return self.frames[i:j]
@@ -373,6 +388,8 @@ class Wav(AbstractWav):
         return copy.deepcopy(self)
 
     def replaceSegment(self, startTime: float, endTime: float, frames: bytes):
+        _validateTimeRange(startTime, endTime)
+
         self.deleteSegment(startTime, endTime)
         self.insert(startTime, frames)
 
